@@ -6,7 +6,8 @@ from order import nocast, key
 
 TECHNIQUE = ("table agreement between the option-mask bit -> channel-field maps extracted from ares_init_by_options and ares_save_options, guard dominance of "
              "every system-configuration store by the user's mask bit, must-set typestate of the mask bit in the user-facing setters, identity-comparison "
-             "completeness for servers, and who-copies check of setter-written fields in ares_dup")
+             "completeness for servers, and who-copies check of setter-written fields in ares_dup"
+             ", comparator key order of the server container x exporting walkers, reachability 'mutation before a rejecting check' over every public setter, forward must-analysis of members written through out-parameters")
 LEVEL_TEXT = ("static: decides the mask symmetry the mechanism rests on, for every option bit and every path: (MASK) the fields written when a bit is given at "
               "initialisation are exactly the fields read back when it is saved, and every ARES_OPT_* bit is handled on both sides; (WIN) every store of "
               "system configuration into the channel is dominated by 'the user did not set this bit', and setters that install user values set the bit on "
